@@ -266,9 +266,14 @@ func c17Components() []*concComponent {
 				case 11:
 					out[i] = concIn{Op: "Update", A: rng.IntN(len(allRoots)), B: rng.IntN(3), C: rng.IntN(2)}
 				case 12:
-					out[i] = concIn{Op: "Pin", A: rng.IntN(len(allRoots)), B: rng.IntN(10)}
+					// half of the pins go to the anchor root at varying slots: re-pinning the root that is already pinned
+					a := rng.IntN(len(allRoots))
+					if rng.IntN(2) == 0 {
+						a = 0
+					}
+					out[i] = concIn{Op: "Pin", A: a, B: rng.IntN(10)}
 				default:
-					out[i] = concIn{Op: []string{"GetSlot", "Closest", "CanonAt", "Search", "Justified", "Finalized", "GetPin", "FindHead"}[rng.IntN(8)], A: rng.IntN(len(allRoots)), B: rng.IntN(12)}
+					out[i] = concIn{Op: []string{"GetSlot", "Closest", "CanonAt", "Search", "Justified", "Finalized", "GetPin", "FindHead", "GetPin"}[rng.IntN(9)], A: rng.IntN(len(allRoots)), B: rng.IntN(12)}
 				}
 			}
 			return out
@@ -319,7 +324,14 @@ func c17Components() []*concComponent {
 				if p == nil {
 					return "nil"
 				}
-				return fmt.Sprintf("%x@%d", p.Root[:2], p.Slot)
+				// the caller keeps the returned reference for a moment before reading it again: a result that was handed out is the
+				// caller's, nothing may write to it any more (read without the lock: the race detector sees a writer, too)
+				r0, s0 := p.Root, p.Slot
+				time.Sleep(20 * time.Microsecond)
+				if p.Root != r0 || p.Slot != s0 {
+					return fmt.Sprintf("%x@%d rewritten to %x@%d after Pin() returned it", r0[:2], s0, p.Root[:2], p.Slot)
+				}
+				return fmt.Sprintf("%x@%d", r0[:2], s0)
 			case "GetSlot":
 				s, ok := fc.GetSlot(allRoots[in.A])
 				return fmt.Sprint(s, ok)
